@@ -93,6 +93,63 @@ pub fn reversed_of(id: &str, inner: impl Fn(&str) -> Option<Box<dyn Space>>) -> 
     id.strip_suffix("~rev").map(|base| inner(base).map(|s| Box::new(Reversed(s)) as Box<dyn Space>))
 }
 
+/// SUPPLEMENTARY, not part of any exhaustive claim: `threads` consecutive cases of the inner space run at the same
+/// time on free-running OS threads (id suffix "~par"). The interleavings are whatever the machine produces - sampled,
+/// not enumerated - so a clean pass proves nothing; but the oracles are absolute, so anything it reports is a real
+/// wrong result. It exists because a lock or cache that a change introduces carries no hook point the cooperative
+/// scheduler could own.
+pub struct Concurrent {
+    pub inner: Box<dyn Space>,
+    pub threads: u64,
+}
+impl Space for Concurrent {
+    fn len(&self) -> u64 {
+        (self.inner.len() + self.threads - 1) / self.threads
+    }
+    fn run(&self, i: u64, sink: &mut Sink) {
+        let lo = i * self.threads;
+        let hi = ((i + 1) * self.threads).min(self.inner.len());
+        let inner = &self.inner;
+        let parts: Vec<Sink> = std::thread::scope(|sc| {
+            let hs: Vec<_> = (lo..hi)
+                .map(|j| {
+                    sc.spawn(move || {
+                        let mut sk = Sink::new();
+                        inner.run(j, &mut sk);
+                        sk
+                    })
+                })
+                .collect();
+            hs.into_iter().filter_map(|h| h.join().ok()).collect()
+        });
+        for p in parts {
+            sink.evaluations += p.evaluations;
+            sink.hashes.extend(p.hashes);
+            for (k, v) in p.counters {
+                *sink.counters.entry(k).or_insert(0) += v;
+            }
+            for mut v in p.violations {
+                v.tags.push("concurrent-pass".to_string());
+                v.detail = format!("(while {} cases ran at the same time on free-running threads) {}", hi - lo, v.detail);
+                sink.violations.push(v);
+            }
+        }
+    }
+    fn describe(&self, i: u64) -> Value {
+        let lo = i * self.threads;
+        let hi = ((i + 1) * self.threads).min(self.inner.len());
+        serde_json::json!({"concurrent_cases": (lo..hi).map(|j| self.inner.describe(j)).collect::<Vec<_>>(), "order": "at the same time, free-running threads (supplementary, sampled)"})
+    }
+    fn tags(&self, i: u64) -> Vec<String> {
+        let mut t = self.inner.tags((i * self.threads).min(self.inner.len() - 1));
+        t.push("concurrent-pass".into());
+        t
+    }
+}
+pub fn concurrent_of(id: &str, inner: impl Fn(&str) -> Option<Box<dyn Space>>) -> Option<Option<Box<dyn Space>>> {
+    id.strip_suffix("~par").map(|base| inner(base).map(|s| Box::new(Concurrent { inner: s, threads: 4 }) as Box<dyn Space>))
+}
+
 pub struct PoolCfg {
     pub workers: usize,
     pub chunk: u64,
